@@ -108,7 +108,51 @@ def _depth_ops(e1: int, e2: int, w1: int, w2: int, opname: int, limit: int) -> b
     return result(ok, exp > 0)
 
 
+def nest(depth, leaf):
+    """depth nested fields around `leaf`: nest(2, X) = 'p0 { p1 { X } }'"""
+    out = leaf
+    for i in reversed(range(depth)):
+        out = "p%d { %s }" % (i, out)
+    return out
+
+
+def _depth_shared_fragment(d1: int, d2: int, k: int, deep_first: bool, limit: int, third: bool) -> bool:
+    """
+    pre: 0 <= d1 <= 2 and 0 <= d2 <= 3 and 0 <= k <= 2 and -1 <= limit <= 6
+    post: _
+    """
+    D1, D2, K, L = concrete_int(d1, 0, 2), concrete_int(d2, 0, 3), concrete_int(k, 0, 2), concrete_int(limit, -1, 6)
+    DF, TH = (True if deep_first else False), (True if third else False)
+    with untraced():
+        # the SAME named fragment is spread at nesting level D1 and at nesting level D2 of one operation
+        frag_body = nest(K, "leaf")                    # K levels below the spread position
+        a = "u " + nest(D1, "...F") if D1 else "...F"
+        b = "v " + nest(D2, "...F") if D2 else "...F"
+        if D1:
+            a = "u { %s }" % nest(D1 - 1, "...F") if D1 > 1 else "u { ...F }"
+        if D2:
+            b = "v { %s }" % nest(D2 - 1, "...F") if D2 > 1 else "v { ...F }"
+        parts = [b, a] if DF else [a, b]
+        if TH:
+            parts.append("w { ...G }")
+        src = "query Q { %s }\nfragment F on T { %s }\nfragment G on T { ...F }" % (" ".join(parts), frag_body)
+        doc = parse(src)
+        depth = max(D1, D2) + K
+        if TH:
+            depth = max(depth, 1 + K)
+        rule = MaxDepthValidationRule(L)
+        errors = rule(None, doc, {})
+        ok = (len(errors) > 0) == (depth > L) and len(errors) <= 1
+    return result(ok, D1 != D2)
+
+
 CONDITIONS = [
+    Cond(
+        name="depth_shared_fragment", fn=_depth_shared_fragment, quick=100, thorough=200, per_path=60,
+        bound="one named fragment (inner depth 0..2) spread at two different nesting levels (0..2 and 0..3) of the same operation, either one first, optionally a third time through another fragment; every limit -1..6",
+        symbolic={"d1,d2": "choice: nesting levels of the two spreads", "k": "choice: depth inside the fragment", "deep_first": "choice: document order", "limit": "choice", "third": "choice"},
+        witness={"d1": 0, "d2": 2, "k": 2, "deep_first": False, "limit": 3, "third": False},
+    ),
     Cond(
         name="depth_single", fn=_depth_single, quick=170, thorough=600, per_path=30, shards_quick=16, shards_thorough=16,
         bound="one operation: chain of depth <= 2 (thorough 3) with top level and deeper levels plain / inline fragment / named fragment, "
